@@ -45,6 +45,26 @@ def whole_trainer(focus, i, pws, ngram, asize, maxlen, root, ops, exp, dist, vio
                     a, b = ln.rstrip('\n').split('\t')
                     out_.append((a, b))
                 return out_
+            if focus == 'C11':
+                # the scorer as a program sees it: `PCFGPasswordScorer.parse` reports the OMEN level of every string it is given - also of
+                # strings it classifies as an e-mail address or a web site - and that level is the trainer's
+                try:
+                    from props import C13 as _c13
+                    import corr_omentrain as _ct
+                    from lib_trainer.omen.evaluate_password import find_omen_level as _fol
+                    with contextlib.redirect_stdout(io.StringIO()), contextlib.redirect_stderr(io.StringIO()):
+                        sc_full = _c13.load_scorer(rt)
+                        al_full, _ = _ct.build(pws, ngram, asize, maxlen)
+                    for s_ in list(dict.fromkeys(pws))[:40] + ['bob@aol.com', 'www.love.com', 'love.com', pws[0] + '@mail.ru', 'www.' + pws[-1] + '.com']:
+                        got_ = sc_full.parse(s_)[3]
+                        want_ = _fol(al_full, s_)
+                        if got_ != want_:
+                            viol.append({'property': 'C11', 'kind': 'scorer-program-level-differs', 'string': s_, 'scorer': got_, 'trainer': want_,
+                                         'witness': {'passwords': pws, 'ngram': ngram, 'alphabet_size': asize, 'max_length': maxlen, 'string': s_}})
+                            break
+                    dist['scorer_program_strings'] = dist.get('scorer_program_strings', 0) + 1
+                except ImportError:
+                    pass
             ops.append('ot.third ' + ' '.join(enc(p_) for p_ in pws))
             exp.append(' '.join(['c'] + [f"{a}:{b}" for a, b in rd_pairs('omen_pws_per_level.txt')]))
             # the saved per-level counts describe what the guesser produces: for every level enumerated with the real generator, the
@@ -94,7 +114,9 @@ def run(ctx, focus='C11'):
             # whatever the seed: a word-like list whose transition table has dead ends below the highest level (the search
             # falls back to a cheaper first transition), enumerated with one shared memo table
             pws = ['anna', 'annan', 'nana', 'banana', 'bandana', 'anna', 'nan', 'ana', 'banana', 'bananas', 'ban', 'band', 'bands',
-                   'sand', 'sands', 'and']
+                   'sand', 'sands', 'and',
+                   # strings the scorer classifies as an e-mail address / a web site have a level like any other string
+                   'ana@nan.com', 'www.banana.com', 'nan.com', 'anna@band.com']
             ngram, mode, maxlen, asize = 3, 'wordlike', 21, 100
         if i == 3:
             # a transition smoothed to the highest level (10): seen once against tens of thousands of `a -> a`
